@@ -54,11 +54,11 @@ impl GraphBlock {
         match self {
             GraphBlock::BulletList(items) => items.iter().any(|item| {
                 item.iter().filter(|block| block.is_paragraph()).count() > 1
-                    || item.iter().any(|block| block.is_rule())
+                    || item.iter().any(|block| block.is_rule() || block.is_table())
             }),
             GraphBlock::OrderedList(items) => items.iter().any(|item| {
                 item.iter().filter(|block| block.is_paragraph()).count() > 1
-                    || item.iter().any(|block| block.is_rule())
+                    || item.iter().any(|block| block.is_rule() || block.is_table())
             }),
             _ => false,
         }
@@ -68,6 +68,14 @@ impl GraphBlock {
     fn is_rule(&self) -> bool {
         match self {
             GraphBlock::HorizontalRule => true,
+            _ => false,
+        }
+    }
+
+    // a table row written directly under a nested list or quote would read back as a lazy continuation of its last paragraph
+    fn is_table(&self) -> bool {
+        match self {
+            GraphBlock::Table(_, _, _) => true,
             _ => false,
         }
     }
